@@ -352,9 +352,9 @@ func (e *Engine) discharge(res *HarnessResult, cfg RunConfig) {
 		// wall-time budget per harness for the safety obligations: once it is used up the remaining obligations are
 		// reported "unknown" (harness INCONCLUSIVE) instead of queueing behind 120 s timeouts for hours; what was found
 		// until then (violations included) is still reported
-		budget := 900 * time.Second
+		budget := 1800 * time.Second
 		if cfg.Tier == "thorough" {
-			budget = 3600 * time.Second
+			budget = 10800 * time.Second
 		}
 		if s := os.Getenv("VERIF_HARNESS_BUDGET_S"); s != "" {
 			if n, err := strconv.Atoi(s); err == nil {
